@@ -7,6 +7,7 @@ import (
 	"context"
 	"encoding/json"
 	"errors"
+	"fmt"
 	"io"
 	"net/http"
 	"strings"
@@ -102,8 +103,19 @@ func (t *jwksRT) RoundTrip(req *http.Request) (*http.Response, error) {
 }
 
 // worker holds the per-goroutine provider worlds (one per allow-list) so that cases never share mutable state.
+// optWorld is a provider built with one combination of allow-list and key-set options; the configured key sets
+// are worker-local static sets whose content is replaced per case.
+type optWorld struct {
+	*opdrv.World
+	access *staticKeySet // handed to op.WithAccessTokenKeySet (nil = option not used)
+	hint   *staticKeySet // handed to op.WithIDTokenHintKeySet (nil = option not used)
+}
+
+var ksModes = []string{"default", "access-keyset", "hint-keyset", "both"}
+
 type worker struct {
 	worlds   [6]*opdrv.World
+	optW     map[string]*optWorld
 	profile  *opdrv.World
 	profileN int
 	warmJWS  *jose.JSONWebSignature
@@ -121,6 +133,45 @@ func newWorker() *worker {
 		w.worlds[i].Store.SetJournal(false)
 	}
 	return w
+}
+
+func (w *worker) optWorld(allowIdx int, mode string) *optWorld {
+	if mode == "" || mode == "default" {
+		return &optWorld{World: w.worlds[allowIdx]}
+	}
+	key := fmt.Sprintf("%d/%s", allowIdx, mode)
+	if ow, ok := w.optW[key]; ok {
+		return ow
+	}
+	if w.optW == nil {
+		w.optW = map[string]*optWorld{}
+	}
+	ow := &optWorld{}
+	var opts []op.Option
+	if a := allowLists[allowIdx]; a != nil {
+		opts = append(opts, op.WithAccessTokenVerifierOpts(op.WithSupportedAccessTokenSigningAlgorithms(a...)),
+			op.WithIDTokenHintVerifierOpts(op.WithSupportedIDTokenHintSigningAlgorithms(a...)))
+	}
+	if mode == "access-keyset" || mode == "both" {
+		ow.access = &staticKeySet{}
+		opts = append(opts, op.WithAccessTokenKeySet(ow.access))
+	}
+	if mode == "hint-keyset" || mode == "both" {
+		ow.hint = &staticKeySet{}
+		opts = append(opts, op.WithIDTokenHintKeySet(ow.hint))
+	}
+	ow.World = opdrv.MustWorld(opdrv.Options{Issuer: issuer, Config: opdrv.DefaultConfig(), Caps: vstore.Full, ProviderOpts: opts})
+	ow.World.Store.SetJournal(false)
+	w.optW[key] = ow
+	return ow
+}
+
+func jwksOf(S []ksEntry) []jose.JSONWebKey {
+	out := make([]jose.JSONWebKey, len(S))
+	for i, e := range S {
+		out[i] = e.jwk()
+	}
+	return out
 }
 
 func (w *worker) profileWorld() *opdrv.World {
@@ -175,8 +226,19 @@ func (w *worker) prepare(c *caseCtx, useRaw bool, skipRemote bool) func(tok stri
 		}
 		return func(tok string) outcome { return verifyRP(c, ks, tok, useRaw) }
 	case "op-access-token", "op-id-token-hint":
-		world := w.worlds[c.allowIdx]
-		installOPKeys(world, c.S)
+		ow := w.optWorld(c.allowIdx, c.ksMode)
+		world := ow.World
+		if c.ksMode == "" || c.ksMode == "default" {
+			installOPKeys(world, c.S)
+		} else {
+			installOPKeys(world, c.storageS)
+			if ow.access != nil {
+				ow.access.keys = jwksOf(c.accessS)
+			}
+			if ow.hint != nil {
+				ow.hint.keys = jwksOf(c.hintS)
+			}
+		}
 		ctx := opCtx()
 		if c.verifier == "op-access-token" {
 			return func(tok string) outcome {
